@@ -14,8 +14,9 @@ from qiskit.circuit.library import (
     XGate, YGate, ZGate, HGate, SGate, SdgGate, SXGate, SXdgGate, TGate, TdgGate, RXGate, RYGate, RZGate,
     PhaseGate, CXGate, CYGate, CZGate, CHGate, CSGate, CSdgGate, CSXGate, RXXGate, RYYGate, RZZGate, CRXGate,
     CRYGate, CRZGate, ECRGate, CPhaseGate, SwapGate, iSwapGate, DCXGate, RZXGate, XXPlusYYGate, XXMinusYYGate,
-    CCXGate, UnitaryGate, CU3Gate, CUGate, RCCXGate,
+    CCXGate, UnitaryGate, CU3Gate, CUGate, RCCXGate, CU1Gate,
 )
+from qiskit.circuit import QuantumCircuit
 
 import qiskit_addon_cutting.qpd.decompositions as D
 from qiskit_addon_cutting.qpd import QPDBasis
@@ -185,6 +186,35 @@ def build_gate(spec):
         p = Parameter("p")
         table = {**FAMILY_R, **FAMILY_C}
         return table[spec["name"]]((p * 2).bind({p: spec["value"] / 2}))
+    if k == "typed":   # family gate whose parameter is an int / numpy scalar
+        conv = {"int": int, "float32": np.float32, "float64": np.float64, "int64": np.int64}[spec["type"]]
+        table = {**FAMILY_R, **FAMILY_C}
+        return table[spec["name"]](conv(spec["value"]))
+    if k == "ctrl0":   # open-controlled variants: names cx_o0, crz_o0, ... -> KAK path
+        table = {"cx": CXGate, "cz": CZGate, "crz": CRZGate, "crx": CRXGate, "cp": CPhaseGate, "ch": CHGate}
+        return table[spec["name"]](*spec.get("params", []), ctrl_state=0)
+    if k == "derived":
+        wh = spec["which"]
+        t = spec.get("t", 0.37)
+        if wh == "composite":
+            qc = QuantumCircuit(2, name="my_block")
+            qc.h(0)
+            qc.cx(0, 1)
+            qc.rz(t, 1)
+            return qc.to_gate()
+        return {"iswap_dg": lambda: iSwapGate().inverse(), "rxx_inv": lambda: RXXGate(t).inverse(),
+                "crz_inv": lambda: CRZGate(t).inverse(), "swap_sqrt": lambda: SwapGate().power(0.5),
+                "cu1": lambda: CU1Gate(t), "dcx_inv": lambda: DCXGate().inverse(),
+                "cx_pow": lambda: CXGate().power(0.3)}[wh]()
+    if k == "impostor":   # carries a registered NAME without being that instruction: outside the property's quantifier
+        wh = spec["which"]
+        if wh == "cx_composite":
+            qc = QuantumCircuit(2, name="cx")
+            qc.h(0)
+            return qc.to_gate()
+        return {"cx3": lambda: Gate("cx", 3, []), "swap_inst": lambda: Instruction("swap", 2, 0, []),
+                "move1": lambda: Gate("move", 1, []), "rzz_noparam": lambda: Gate("rzz", 2, []),
+                "crx_noparam": lambda: Gate("crx", 2, [])}[wh]()
     if k == "unitary":
         return UnitaryGate(np.array([[complex(*z) for z in row] for row in spec["matrix"]]), check_input=False)
     if k == "special":
@@ -216,7 +246,7 @@ def gate_flags(g):
             mok = False
     except Exception:  # noqa: BLE001
         mok = False
-    return isg, nq, pok, mok
+    return isg, nq, pok, mok, len(g.params) > 0
 
 
 def gate_matrix(g):
@@ -280,10 +310,23 @@ def canon_basis(basis, th2, d):
 _KAKN = [0]
 
 
-def run_case(w, group, spec, th2=None, cs=(Fraction(1), Fraction(0)), exact=True, and_judge=False):
-    """Run the implementation on build_gate(spec); write the Coq case and the JSON case."""
+def family_point(name, theta):
+    """theta' (= theta_prime of the code), the float 2*theta' that rotation parameters must equal, cos/sin theta'."""
+    ctrl = name in FAMILY_C
+    thp = (theta / 4) if ctrl else (-theta / 2)
+    return (theta / 2 if ctrl else None), (Fraction(math.cos(thp)), Fraction(math.sin(thp)))
+
+
+def run_case(w, group, spec, th2=None, cs=None, exact=True, and_judge=True):
+    """Run the implementation on build_gate(spec); write the Coq case and the JSON case.
+    The independent PTM oracle (judge) is ANDed into every case."""
     g = build_gate(spec)
-    isg, nq, pok, mok = gate_flags(g)
+    isg, nq, pok, mok, hasp = gate_flags(g)
+    name = g.name
+    if cs is None:
+        cs = (Fraction(1), Fraction(0))
+        if name in PARAM_NAMES and hasp and pok:   # evaluation point from the gate's own float parameter
+            th2, cs = family_point(name, float(g.params[0]))
     _Rec.last = None
     r = call_canon(QPDBasis.from_instruction, g)
     d = _Rec.last
@@ -294,7 +337,7 @@ def run_case(w, group, spec, th2=None, cs=(Fraction(1), Fraction(0)), exact=True
         emaps, cells, coeffs, jmaps = canon_basis(r[1], th2, d)
         impl.update(maps=jmaps, coeffs=coeffs)
         if d is not None:
-            mat = np.asarray(g.to_matrix(), dtype=complex)
+            mat = gate_matrix(g)
             dist = okak_distance(d, mat)
             okak = dist <= 1e-9
             w.contract("O-KAK: U ∝ (K1l⊗K1r)·exp(i(aXX+bYY+cZZ))·(K2l⊗K2r) within 1e-9", okak)
@@ -307,23 +350,23 @@ def run_case(w, group, spec, th2=None, cs=(Fraction(1), Fraction(0)), exact=True
     else:
         impl.update(error=r[1])
         exp = Res(r[0])
-    name = g.name
     assert '"' not in name
-    jcase = dict(kind="basis", gate=spec, name=name, flags=[isg, nq, pok, mok], th2=th2, impl=impl)
+    jcase = dict(kind="basis", gate=spec, name=name, flags=[isg, nq, pok, mok, hasp], th2=th2, impl=impl)
     if and_judge:
-        # near-special stream: the independent PTM residual of the observed basis is ANDed into the case, so that an
-        # oracle rejection surfaces as a model/implementation disagreement even where the coefficients look plausible
+        # the independent oracle looks at EVERY case; a rejection is ANDed into the case, so it surfaces as a
+        # model/implementation disagreement (and is then judged again by run.py) even where the model agrees
         v = judge(jcase)
-        w.contract("independent PTM residual of the observed basis <= 1e-9 (near-special stream)", not v["violates"])
+        w.contract("judge_accepts_clean_case", not v["violates"])
         okak = okak and not v["violates"]
         impl["judge_detail"] = v["detail"]
-    coq_case = (Raw(f'"{name}"'), (isg, nq, pok, mok), (Fraction(cs[0]), Fraction(cs[1])), wl, okak, exp)
+        w.count("judge.verdict", "violates" if v["violates"] else ("accepts" if v["violates"] is False else "no-verdict"))
+    coq_case = (Raw(f'"{name}"'), (isg, nq, pok, mok, hasp), (Fraction(cs[0]), Fraction(cs[1])), wl, okak, exp)
     if group.startswith("kak"):   # 58-term cases are the expensive ones for coqc: spread them over shards
         _KAKN[0] += 1
-        group = f"{group}-{_KAKN[0] % 6}"
+        group = f"{group}-{_KAKN[0] % 10}"
     w.add(group, "chk_basis", coq_case, jcase, nontrivial=(r[0] == "ok"))
     w.count("basis.outcome", r[0])
-    w.count("basis.name", name)
+    w.count("basis.name", name if len(name) < 24 else "(long)")
     if r[0] == "ok":
         w.count("basis.nmaps", len(r[1].maps))
     return g, r
@@ -349,7 +392,7 @@ def generate(rng, tier, outdir):
     if not quick:
         TS += [Fraction(int(rng.integers(-60, 60)), int(rng.integers(1, 60))) for _ in range(60)]
     SPECIAL = [0.0, math.pi, -math.pi, math.pi / 2, -math.pi / 2, 2 * math.pi, -4 * math.pi, 6 * math.pi, 13.7, -29.1,
-               4 * math.pi + 1e-3, 1e-8, -1e-12, 1e-300, math.pi / 3, math.pi / 7, math.pi / 11, 3 * math.pi / 2, -25.132741228718345]
+               4 * math.pi + 1e-3, 1e-8, -1e-12, 1e-300, 1e3, -1e6, 1e16, -1e16, float(2 ** 60), -0.0, 5e-324, math.pi / 3, math.pi / 7, math.pi / 11, 3 * math.pi / 2, -25.132741228718345]
     NEAR_DELTAS = [1e-2, -1e-2, 1e-3, -1e-3, 1e-4, -1e-4, 1e-6, -1e-6, 1e-9, -1e-9]
     if not quick:
         SPECIAL += [float(x) for x in rng.uniform(-8 * math.pi, 8 * math.pi, size=80)]
@@ -373,21 +416,22 @@ def generate(rng, tier, outdir):
             thp = (theta / 4) if ctrl else (-theta / 2)
             c, s = Fraction(math.cos(thp)), Fraction(math.sin(thp))
             spec = dict(ctor="std", name=name, params=[theta])
-            run_case(w, "family-special", spec, th2=(theta / 2 if ctrl else None), cs=(c, s))
+            run_case(w, "family-special", spec)
             w.count("family.stream", "special")
         # near-special stream: theta = k*pi/2 + delta (close to, not at, the special points)
         for k in range(-16, 17):
             for delta in NEAR_DELTAS:
                 theta = k * (math.pi / 2) + delta
-                thp = (theta / 4) if ctrl else (-theta / 2)
-                c, s = Fraction(math.cos(thp)), Fraction(math.sin(thp))
                 spec = dict(ctor="std", name=name, params=[theta])
-                run_case(w, "family-near-special", spec, th2=(theta / 2 if ctrl else None), cs=(c, s), and_judge=True)
+                run_case(w, "family-near-special", spec)
                 w.count("family.stream", "near-special")
         # bound ParameterExpression, integer parameter, label
-        run_case(w, "family-special", dict(ctor="expr", name=name, value=0.8),
-                 th2=(0.8 / 2 if ctrl else None),
-                 cs=(Fraction(math.cos(0.8 / 4 if ctrl else -0.8 / 2)), Fraction(math.sin(0.8 / 4 if ctrl else -0.8 / 2))))
+        run_case(w, "family-special", dict(ctor="expr", name=name, value=0.8))
+        # parameter types and labels
+        for ty, val in (("int", 3), ("int", -7), ("float32", float(np.float32(0.3))), ("float64", 1.25), ("int64", 2)):
+            run_case(w, "family-special", dict(ctor="typed", name=name, type=ty, value=val))
+            w.count("family.stream", "typed-parameter")
+        run_case(w, "family-special", dict(ctor="std", name=name, params=[0.9], label="lbl"))
         # malformed: unbound parameter
         run_case(w, "malformed", dict(ctor="unbound", name=name))
         w.count("malformed.kind", "unbound-family")
@@ -445,11 +489,39 @@ def generate(rng, tier, outdir):
             U = locals_() @ weyl_unitary(a, b, c) @ locals_()
             run_case(w, "kak", unitary_spec(U))
             w.count("kak.kind", "weyl-corner/edge conjugated")
-        # near-special: the same point moved by ±1e-5 (Qiskit's default fidelity would snap it)
-        for eps in (1e-5, -1e-5):
-            U = locals_() @ weyl_unitary(a + eps, b, c) @ locals_()
-            run_case(w, "kak-near-special", unitary_spec(U))
-            w.count("kak.kind", "near-special")
+    # near-special, graded: one Weyl coordinate of a special point moved by ±delta (a default-fidelity or
+    # fidelity=1-1e-12 decomposition would snap these)
+    graded_pts = corners[:5] + [corners[8], corners[11]] if quick else corners
+    KAK_DELTAS = [1e-3, 1e-4, 1e-5, 1e-6, 1e-7, 1e-9]
+    for pi_, pt in enumerate(graded_pts):
+        for j in range(3):
+            for di, dl in enumerate(KAK_DELTAS):
+                signs = ((1,) if (pi_ + j + di) % 2 == 0 else (-1,)) if quick else (1, -1)
+                for sg in signs:
+                    q3 = list(pt)
+                    q3[j] += sg * dl
+                    U = locals_() @ weyl_unitary(*q3) @ locals_()
+                    run_case(w, "kak-near-special", unitary_spec(U))
+                    w.count("kak.kind", "near-special graded")
+    # bare (unconjugated) special matrices and corners; Weyl coordinates outside the chamber
+    for G in (CXGate, CZGate, SwapGate, iSwapGate, DCXGate, ECRGate, CHGate, CYGate):
+        run_case(w, "kak", unitary_spec(gate_matrix(G())))
+        w.count("kak.kind", "bare Clifford as UnitaryGate")
+    for pt in corners[:9]:
+        run_case(w, "kak", unitary_spec(weyl_unitary(*pt)))
+        w.count("kak.kind", "bare weyl point")
+    for pt in ((1.0, 0.2, 0.1), (-0.3, 0.2, 0.1), (0.2, 0.5, 0.1), (2.0, -1.5, 0.9), (q + 1e-6, q, 0), (0.1, 0.2, 0.3), (3 * q, q, q / 2)):
+        run_case(w, "kak", unitary_spec(locals_() @ weyl_unitary(*pt) @ locals_()))
+        run_case(w, "kak", unitary_spec(weyl_unitary(*pt)))
+        w.count("kak.kind", "outside the chamber")
+    # open-controlled variants of registered gates (names cx_o0 ...), inverses / powers, cu1
+    for nm, ps in (("cx", []), ("cz", []), ("ch", []), ("crz", [0.8]), ("crx", [-2.2]), ("cp", [1.3]), ("cp", [math.pi + 1e-3])):
+        run_case(w, "kak", dict(ctor="ctrl0", name=nm, params=ps))
+        w.count("kak.kind", "open-controlled")
+    for wh in ("swap_sqrt", "cu1", "rxx_inv", "crz_inv", "dcx_inv", "cx_pow", "iswap_dg", "composite"):
+        grp = "kak" if wh not in ("rxx_inv", "crz_inv") else "family-special"
+        run_case(w, grp, dict(ctor="derived", which=wh, t=0.37))
+        w.count("kak.kind", "derived:" + wh)
     std_angles = [0.3, -1.1, math.pi / 2, math.pi, 2.5, 7e-5, -7e-5, 1e-5, 0.0]
     if not quick:
         std_angles += [float(x) for x in rng.uniform(-7, 7, size=40)]
@@ -470,13 +542,20 @@ def generate(rng, tier, outdir):
     for nm, extra in (("rzx", []), ("xx_plus_yy", [0.2])):
         run_case(w, "malformed", dict(ctor="unbound", name=nm, params=extra))
         w.count("malformed.kind", "unbound-kak")
+    # observation stream (outside the property's quantifier): instructions that merely carry a registered name.
+    # The registry is keyed by name, in the source and in the model; the oracle stays silent on them.
+    for wh in ("cx_composite", "cx3", "swap_inst", "move1", "rzz_noparam", "crx_noparam"):
+        run_case(w, "name-collision", dict(ctor="impostor", which=wh))
+        w.count("malformed.kind", "name-collision:" + wh)
 
     return w.finish(
         rule="all 20 registered names; 7 parameterised families x rational-circle angles (model evaluated exactly at rational "
              "cos/sin) + special angles (0, ±pi, 2pi k, |theta|>4pi, tiny) + near-special grid theta = k*pi/2 + delta, k=-16..16, "
              "delta in ±{1e-2,1e-3,1e-4,1e-6,1e-9} (independent PTM residual ANDed into the case) + bound ParameterExpression; fixed gates with/without "
              "label; KAK path: Haar-random, local products, identity, Weyl-chamber corners/edges conjugated by random locals, "
-             "near-special points (±1e-5), rzx/xx_plus_yy/xx_minus_yy incl. 7e-5, cu3/cu; malformed: 3-qubit/1-qubit gates, "
+             "graded near-special points (one coordinate ±1e-3..1e-9), bare Cliffords/corners, coordinates outside the chamber, "
+             "open-controlled gates, inverses/powers, rzx/xx_plus_yy/xx_minus_yy incl. 7e-5, cu3/cu/cu1; huge/typed/labelled "
+             "family parameters; name-collision observation stream; the independent PTM oracle is ANDed into every case; malformed: 3-qubit/1-qubit gates, "
              "non-gate instructions, opaque gates, unbound parameters. Compared exactly: sharing structure (list identities), "
              "operation names, rotation-parameter tags, KAK local-unitary tags; coefficients within 1e-12. "
              "non-trivial = the implementation returned a basis")
@@ -485,15 +564,20 @@ def generate(rng, tier, outdir):
 # ------------------------------------------------------------------------------------------------
 # property-level oracle
 # ------------------------------------------------------------------------------------------------
-def decomposable(spec, flags):
-    """Does the property text demand a basis for this instruction?"""
-    isg, nq, pok, mok = flags
-    name_registered = spec.get("ctor") in ("std", "expr", "unbound") and spec.get("name") in (PARAM_NAMES + list(FIXED))
-    if spec.get("ctor") == "unbound":
-        return False
-    if name_registered:
-        return True
-    return bool(isg and nq == 2 and mok)
+REGISTERED = PARAM_NAMES + list(FIXED)
+
+
+def decomposable(case):
+    """'yes' / 'no' (must be refused) / 'outside' (the property is silent)."""
+    spec = case["gate"]
+    isg, nq, pok, mok = case["flags"][:4]
+    if spec.get("ctor") == "impostor":
+        return "outside"       # carries a registered name without being that instruction
+    if case.get("name") in REGISTERED:
+        if case["name"] in PARAM_NAMES and not pok:
+            return "no"        # unbound parameter
+        return "yes"
+    return "yes" if (isg and nq == 2 and mok) else "no"
 
 
 def judge(case):
@@ -510,12 +594,21 @@ def _judge(case):
         return dict(violates=False, detail="specification-vs-Qiskit comparison; a disagreement means the Coq specification "
                                            "(Common/Ptm.v) is wrong, not the implementation")
     spec, impl = case["gate"], case["impl"]
-    want = decomposable(spec, case["flags"])
-    if not want:
+    want = decomposable(case)
+    if want == "outside":
+        return dict(violates=False, detail="instruction merely carries a registered name: outside the property's quantifier "
+                                           f"(answered with {impl['status']})")
+    if want == "no":
         bad = impl["status"] != "refused"
         return dict(violates=bad, detail=f"undecomposable instruction answered with {impl['status']}: {impl.get('error', '')}")
     if impl["status"] != "ok":
         return dict(violates=True, detail=f"decomposable instruction answered with {impl['status']}: {impl.get('error', '')}")
+    known = set(OPCODE)
+    for m in impl["maps"]:
+        for side in m:
+            for op in side:
+                if op[0] not in known:
+                    return dict(violates=None, detail=f"basis contains an operation the oracle has no semantics for: {op[0]}")
     g = build_gate(spec)
     target = definition_ptm(g) if g.name == "move" else unitary_ptm(gate_matrix(g))
     maps = [(m[0], m[1]) for m in impl["maps"]]
@@ -535,8 +628,10 @@ def rerun(case):
         emaps, cells, coeffs, jmaps = canon_basis(r[1], case.get("th2"), _Rec.last)
         impl.update(maps=jmaps, coeffs=coeffs)
         if _Rec.last is not None:
-            impl.update(okak_distance=okak_distance(_Rec.last, np.asarray(g.to_matrix(), dtype=complex)))
+            impl.update(okak_distance=okak_distance(_Rec.last, gate_matrix(g)))
     else:
         impl.update(error=r[1])
     case["impl"] = impl
+    case["flags"] = list(gate_flags(g))
+    case["name"] = g.name
     return case
